@@ -54,16 +54,58 @@ class Lock:
 
 # ------------------------------------------------------------------------------------------------ builds
 
+def repo_source_hash():
+    """content hash of everything cargo compiles from the repository (sources, manifests, build script)"""
+    h = hashlib.sha256()
+    paths = []
+    for base in ("src", "build.rs", "Cargo.toml", "Cargo.lock"):
+        p = os.path.join(REPO, base)
+        if os.path.isdir(p):
+            for d, _, fs in os.walk(p):
+                paths += [os.path.join(d, f) for f in fs]
+        elif os.path.exists(p):
+            paths.append(p)
+    for p in sorted(paths):
+        h.update(os.path.relpath(p, REPO).encode() + b"\0")
+        with open(p, "rb") as f:
+            h.update(f.read())
+        h.update(b"\0")
+    return h.hexdigest()
+
+
+def ensure_fresh(target_dir):
+    """cargo decides freshness by modification times; a tree restored with old time stamps (a copy made with -p, a snapshot,
+    a target directory copied from elsewhere) would keep a binary built from OTHER sources. The content hash of the
+    repository's sources is kept next to the build output: when it differs, the crate's fingerprints are removed so that cargo
+    rebuilds it."""
+    want = repo_source_hash()
+    stamp = os.path.join(target_dir, ".bw_source_hash")
+    have = open(stamp).read().strip() if os.path.exists(stamp) else None
+    if have != want:
+        for fp in glob.glob(os.path.join(target_dir, "debug", ".fingerprint", "blockwatch-*")):
+            shutil.rmtree(fp, ignore_errors=True)
+    return stamp, want
+
+
 def build_harness():
     lock_src, lock_dst = os.path.join(REPO, "Cargo.lock"), os.path.join(HARNESS, "Cargo.lock")
     if not os.path.exists(lock_dst):
         shutil.copy(lock_src, lock_dst)
+    tdir = os.path.join(HARNESS, "target")
+    os.makedirs(tdir, exist_ok=True)
+    stamp, want = ensure_fresh(tdir)
     sh(["cargo", "build", "--offline"], cwd=HARNESS)
+    with open(stamp, "w") as f:
+        f.write(want)
 
 
 def build_repo_binary():
     """the CLI built from /repo's current tree with the guard off (own target dir, nothing written to /repo)"""
+    os.makedirs(REPO_TARGET, exist_ok=True)
+    stamp, want = ensure_fresh(REPO_TARGET)
     sh(["cargo", "build", "--offline", "--bin", "blockwatch", "--target-dir", REPO_TARGET], cwd=REPO)
+    with open(stamp, "w") as f:
+        f.write(want)
 
 
 def translate():
